@@ -1856,7 +1856,7 @@ pub struct C18Case {
     pub metrics_seed: u32,
 }
 
-fn c18_case_strategy() -> impl Strategy<Value = c18::Case> {
+pub fn c18_case_strategy() -> impl Strategy<Value = c18::Case> {
     let a = (
         any::<u64>(),
         prop_oneof![4 => Just(c18::Kind::NameKeyed), 3 => Just(c18::Kind::Cid), 3 => Just(c18::Kind::Cff2)],
